@@ -117,7 +117,12 @@ func TestC01(t *testing.T) {
 	c.Assume("generator preconditions of DESIGN.md Appendix B (bottom-up construction, caller-maintained Length fields, message fits 65535 bytes by the model's sizes)")
 	regressC01(t, c)
 	rapid.Check(t, func(rt *rapid.T) {
-		bm := buildMessage(rt, nil)
+		// framing is a question about the message's own size and header, so the histories in which a nested
+		// action grows after it was attached (where the library sizes containers when asked) are in scope here
+		g := gen.New(rt, drawBudget(rt))
+		g.LateGrowth = true
+		m, n, kind := g.Message()
+		bm := builtMsg{m, n, kind, g.Labels}
 		c.Eval()
 		addLabels(c, bm.labels)
 		c.Label("kind=" + bm.kind)
